@@ -46,7 +46,14 @@ func c10Spellings(keys []string) []any {
 
 // c10Layer applies the ordinary merge rules (the real layering API on copies):
 // referenced value layered onto the local content.
+// errC10Unspec: a referenced null layered onto local content - "a child null over a value" is an
+// Unspecified zone of the merge rules (3.1), so such cases are executed nowhere and judged nowhere.
+var errC10Unspec = fmt.Errorf("unspecified: null layered onto content")
+
 func c10Layer(local, referenced any) (any, error) {
+	if referenced == nil {
+		return nil, errC10Unspec
+	}
 	p, err := layerAPI(local, referenced)
 	if err != nil {
 		return nil, err
@@ -179,6 +186,9 @@ func c10Cases(base map[string]any, chains bool) []c10Case {
 				mm["h"] = core.Clone(f.value)
 				d := setAt(base, toAnyPath(hm), mm)
 				iv, err := f.inline(tval)
+				if err == errC10Unspec {
+					continue
+				}
 				cs := c10Case{Kind: "new-key " + f.form, Docs: []any{d}}
 				if err != nil {
 					cs.MustErr = true
@@ -206,6 +216,9 @@ func c10Cases(base map[string]any, chains bool) []c10Case {
 				hv["$merge"] = sp
 				iv, err := c10Layer(x, tval)
 				cs := c10Case{Kind: "existing-map {$merge}", Docs: []any{setAt(base, toAnyPath(l), hv)}}
+				if err == errC10Unspec {
+					break
+				}
 				if err != nil {
 					cs.MustErr = true
 				} else {
@@ -219,6 +232,9 @@ func c10Cases(base map[string]any, chains bool) []c10Case {
 				hv := append(core.Clone(x).([]any), map[string]any{"$merge": sp})
 				iv, err := c10Layer(x, tval)
 				cs := c10Case{Kind: "existing-list {$merge}", Docs: []any{setAt(base, toAnyPath(l), hv)}}
+				if err == errC10Unspec {
+					break
+				}
 				if err != nil {
 					cs.MustErr = true
 				} else {
@@ -258,18 +274,19 @@ func c10Chains(base map[string]any, t []string, f c10Host, iv any) []c10Case {
 	for _, names := range [][2]string{{"h", "i"}, {"i", "h"}} {
 		h1, h2 := names[0], names[1]
 		for _, second := range []struct {
-			form string
-			val  any
-			want any
+			form    string
+			val     any
+			want    any
+			layered bool // the expected value is the first host's value layered onto {}
 		}{
-			{"$merge:first", "$merge:" + h1, iv},
-			{"{$merge: first}", map[string]any{"$merge": h1}, nil},
-			{"$replace:first", "$replace:" + h1, iv},
-			{"{$replace: [first]}", map[string]any{"$replace": []any{h1}}, iv},
-			{"same-target", map[string]any{"$replace": toAnyPath(t)}, tval},
+			{"$merge:first", "$merge:" + h1, iv, false},
+			{"{$merge: first}", map[string]any{"$merge": h1}, nil, true},
+			{"$replace:first", "$replace:" + h1, iv, false},
+			{"{$replace: [first]}", map[string]any{"$replace": []any{h1}}, iv, false},
+			{"same-target", map[string]any{"$replace": toAnyPath(t)}, tval, false},
 		} {
 			want := second.want
-			if want == nil {
+			if second.layered {
 				w, err := c10Layer(map[string]any{}, iv)
 				if err != nil {
 					continue
@@ -390,6 +407,29 @@ func c10Cross(base map[string]any) []c10Case {
 			out = append(out, c10Case{Kind: kind + " ambiguous-reversed", Docs: []any{dup, tgt, host}, MustErr: true})
 		}
 	}
+	// several cross-document references in ONE host document: the same pattern twice, and patterns
+	// that only print alike ({id: 1} / {id: "1"}, {id: true} / {id: "true"}) select different documents
+	for _, pr := range [][2]any{{1, "1"}, {true, "true"}, {1, 1}, {"a b", "a b"}, {1.5, "1.5"}} {
+		da := map[string]any{"id": pr[0], "a": map[string]any{"who": "first"}}
+		db := map[string]any{"id": pr[1], "a": map[string]any{"who": "second"}}
+		if core.Equal(pr[0], pr[1]) {
+			db = map[string]any{"id": "other", "a": map[string]any{"who": "second"}}
+		}
+		for fi, mkref := range []func(id any) any{
+			func(id any) any { return map[string]any{"$match": map[string]any{"id": id}, "$path": "a"} },
+			func(id any) any { return []any{map[string]any{"id": id}, "a"} },
+		} {
+			host := map[string]any{"id": 9, "h": map[string]any{"$replace": mkref(pr[0])}, "i": map[string]any{"$replace": mkref(pr[1])}, "j": map[string]any{"$merge": mkref(pr[0]), "z": 1}}
+			second := "second"
+			if core.Equal(pr[0], pr[1]) {
+				second = "first"
+			}
+			inl := map[string]any{"id": 9, "h": map[string]any{"who": "first"}, "i": map[string]any{"who": second}, "j": map[string]any{"who": "first", "z": 1}}
+			kind := fmt.Sprintf("cross two-references-in-one-document %s/%s form%d", core.Canon(pr[0]), core.Canon(pr[1]), fi)
+			out = append(out, c10Case{Kind: kind, Docs: []any{da, db, host}, Inlined: []any{da, db, inl}})
+			out = append(out, c10Case{Kind: kind + " host-first", Docs: []any{host, da, db}, Inlined: []any{inl, da, db}})
+		}
+	}
 	// whole-document reference and a self-matching host
 	out = append(out, c10Case{Kind: "cross whole-document", Docs: []any{mk(1, base), map[string]any{"id": 9, "h": map[string]any{"$replace": map[string]any{"$match": map[string]any{"id": 1}}}}},
 		Inlined: []any{mk(1, base), map[string]any{"id": 9, "h": mk(1, base)}}})
@@ -446,6 +486,13 @@ func buildC10(tier string) *core.Plan {
 			bases = append(bases, m)
 		}
 	}
+	// targets of other kinds: null, false, zero, the empty string, a negative float
+	bases = append(bases,
+		map[string]any{"a": nil, "b": 1},
+		map[string]any{"a": map[string]any{"b": nil, "c.d": 1}},
+		map[string]any{"a": false, "b": 0},
+		map[string]any{"a": "", "b": -1.5},
+		map[string]any{"a": map[string]any{"b": false}, "b": []any{nil, 0}})
 	// templates under $output: false as reference targets
 	hiddenBases := []map[string]any{
 		{"tmpl": map[string]any{"$output": false, "x": 1, "y": map[string]any{"z": 2}}, "k": 1},
